@@ -6,17 +6,12 @@ import TornadoModel.C17.Model
 namespace TornadoModel.C17.Spec
 open TornadoModel.C17
 
-/-- `Upgrade: websocket` (case-insensitive) -/
-def upgradeOk (r : Req) : Bool :=
-  match r.upgrade with
-  | some u => lower u == websocket
-  | none => false
+/-- `Upgrade: websocket` (case-insensitive; a missing header counts as empty) -/
+def upgradeOk (r : Req) : Bool := lower (r.upgrade.getD []) == websocket
 
 /-- `Connection` lists the token `upgrade` (case-insensitive, comma separated, surrounding blanks ignored) -/
 def connectionOk (r : Req) : Bool :=
-  match r.connection with
-  | some c => (splitOn 44 c).any (fun t => lower (strip t) == upgradeTok)
-  | none => false
+  ((splitOn 44 (r.connection.getD [])).map (fun t => lower (strip t))).contains upgradeTok
 
 /-- Host, key and version are present and non-empty; the version is one Tornado speaks -/
 def requiredOk (r : Req) : Bool :=
